@@ -5,7 +5,9 @@ N=${1:-10}
 R=${VP_RUN_REPO:-/repo}
 OUT=${BASELINE_OUT:-/tmp/baseline-junit.xml}
 export BASELINE_OUT=$OUT
-cd "$R" && /venv/bin/python -m pytest -q -p no:cacheprovider --timeout=900 --continue-on-collection-errors -n "$N" --junitxml=$OUT > $OUT.log 2>&1
+# N = 0: exactly the pinned command (serial: every test gets all BLAS threads); N > 0: xdist with N workers
+if [ "$N" = "0" ]; then XD=""; else XD="-n $N"; fi
+cd "$R" && /venv/bin/python -m pytest -ra -q -p no:cacheprovider --timeout=900 --continue-on-collection-errors $XD --junitxml=$OUT > $OUT.log 2>&1
 /venv/bin/python - <<'PY'
 import json, xml.etree.ElementTree as ET
 base = set(json.load(open('/root/.vp/BASELINE.json'))['stable_pass'])
